@@ -55,3 +55,99 @@ func spec_S(a, b *Action) *Action {
 	}
 	return b
 }
+
+// ---------------------------------------------------------------------------------------------
+// C05: splitting the dense table, blanking the defaults, packing
+
+// spec_lookup is the natural reading of "look (s,a) up through the packed arrays with their
+// default-action and default-goto vectors" (property C05): offset, bounds, check vector, else the default.
+func spec_lookup(act []int, off []int, chk []int, adef []int, gdef []int, nT int, s int, a int) int {
+	if 0 <= off[s]+a && off[s]+a < len(chk) && chk[off[s]+a] == s {
+		return act[off[s]+a]
+	}
+	if a > nT {
+		return gdef[a-nT-1]
+	}
+	return adef[s]
+}
+
+//@ func findMaxOccurence
+//@ props C05 C14
+//@ results maxElem
+//@ modifies nothing
+
+//@ func (*LALR1).SplitActionAndGotoTable
+//@ props C05
+//@ results actionTable, gotoTable
+//@ requires lalr != nil && lalr.G != nil
+//@ requires len(lalr.G.VnSet) >= 1
+//@ requires forall s int :: 0 <= s && s < len(tab) ==> len(tab[s]) == len(lalr.G.VtSet) + len(lalr.G.VnSet)
+//@ ensures len(actionTable) == len(tab) && len(gotoTable) == len(lalr.G.VnSet) - 1
+//@ ensures forall s int :: 0 <= s && s < len(tab) ==> len(actionTable[s]) == len(lalr.G.VtSet) + 1
+//@ ensures forall g int :: 0 <= g && g < len(gotoTable) ==> len(gotoTable[g]) == len(tab)
+//@ ensures [C05] forall s, a int :: 0 <= s && s < len(tab) && 0 <= a && a <= len(lalr.G.VtSet) ==> actionTable[s][a] == tab[s][a]
+//@ ensures [C05] forall g, s int :: 0 <= g && g < len(gotoTable) && 0 <= s && s < len(tab) ==> gotoTable[g][s] == tab[s][len(lalr.G.VtSet)+1+g]
+//@ modifies nothing
+//@ loop 0: invariant 0 <= i && i <= len(tab) && len(actionTable) == i
+//@ loop 0: invariant forall s int :: 0 <= s && s < i ==> len(actionTable[s]) == nTerminals + 1
+//@ loop 0: invariant forall s, a int :: 0 <= s && s < i && 0 <= a && a <= nTerminals ==> actionTable[s][a] == tab[s][a]
+//@ loop 0: decreases len(tab) - i
+//@ loop 1: invariant 0 <= i && i <= nNonTerminals && len(gotoTable) == i
+//@ loop 1: invariant forall g int :: 0 <= g && g < i ==> len(gotoTable[g]) == len(tab)
+//@ loop 1: invariant forall g, s int :: 0 <= g && g < i && 0 <= s && s < len(tab) ==> gotoTable[g][s] == tab[s][nTerminals+1+g]
+//@ loop 1: decreases nNonTerminals - i
+//@ loop 2: invariant 0 <= j && j <= len(row) && len(row) == len(tab) && 0 <= i && i < nNonTerminals
+//@ loop 2: invariant forall s int :: 0 <= s && s < j ==> row[s] == tab[s][nTerminals+1+i]
+//@ loop 2: decreases len(row) - j
+
+//@ func (*LALR1).TrySplitTable
+//@ props C05
+//@ results err
+//@ requires lalr != nil && lalr.G != nil && !utils.DebugPackTab
+//@ requires len(tab) >= 1 && len(lalr.G.VnSet) >= 1
+//@ requires forall s int :: 0 <= s && s < len(tab) ==> len(tab[s]) == len(lalr.G.VtSet) + len(lalr.G.VnSet)
+//@ requires forall s, a int :: 0 <= s && s < len(tab) && 0 <= a && a < len(tab[0]) ==> tab[s][a] != 0
+//@ ensures lalr.GTable == tab
+//@ ensures [C05] err == nil ==> lalr.NeedPacked && len(lalr.OffsetTable) == len(tab) && len(lalr.ActionDef) == len(tab) &&
+//@     len(lalr.GoToDef) == len(lalr.G.VnSet) - 1 && len(lalr.ActionTable) == len(lalr.CheckTable)
+//@ ensures [C05] err == nil ==> (forall s, a int :: 0 <= s && s < len(tab) && 0 <= a && a <= len(lalr.G.VtSet) ==>
+//@     spec_lookup(lalr.ActionTable, lalr.OffsetTable, lalr.CheckTable, lalr.ActionDef, lalr.GoToDef, len(lalr.G.VtSet), s, a) == tab[s][a])
+//@ ensures [C05] err == nil ==> (forall s, a int :: 0 <= s && s < len(tab) && len(lalr.G.VtSet) < a && a < len(tab[0]) ==>
+//@     spec_lookup(lalr.ActionTable, lalr.OffsetTable, lalr.CheckTable, lalr.ActionDef, lalr.GoToDef, len(lalr.G.VtSet), s, a) == tab[s][a])
+//@ modifies lalr.GTable, lalr.NeedPacked, lalr.ActionTable, lalr.OffsetTable, lalr.CheckTable, lalr.ActionDef, lalr.GoToDef
+// blank the per-state default in the action part (columns 0..nT)
+//@ loop 0: invariant len(actTab) == len(tab) && len(actdef) == len(tab)
+//@ loop 0: invariant forall s int :: 0 <= s && s < len(tab) ==> len(actTab[s]) == len(lalr.G.VtSet) + 1
+//@ loop 0: invariant forall s, a int :: 0 <= s && s < idx0 && 0 <= a && a <= len(lalr.G.VtSet) ==>
+//@     (actTab[s][a] == 0 && tab[s][a] == actdef[s]) || (actTab[s][a] == tab[s][a] && tab[s][a] != actdef[s])
+//@ loop 0: invariant forall s, a int :: idx0 <= s && s < len(tab) && 0 <= a && a <= len(lalr.G.VtSet) ==> actTab[s][a] == tab[s][a]
+//@ loop 1: invariant len(actTab) == len(tab) && len(actdef) == len(tab) && actdef == before(actdef)
+//@ loop 1: invariant forall s int :: 0 <= s && s < len(tab) ==> len(actTab[s]) == len(lalr.G.VtSet) + 1
+//@ loop 1: invariant forall s, a int :: 0 <= s && s < len(tab) && s != i && 0 <= a && a <= len(lalr.G.VtSet) ==> actTab[s][a] == before(actTab[s][a])
+//@ loop 1: invariant forall a int :: 0 <= a && a < idx1 ==> (actTab[i][a] == 0 && tab[i][a] == actdef[i]) || (actTab[i][a] == tab[i][a] && tab[i][a] != actdef[i])
+//@ loop 1: invariant forall a int :: idx1 <= a && a <= len(lalr.G.VtSet) ==> actTab[i][a] == tab[i][a]
+// blank the per-nonterminal default in the goto part
+//@ loop 2: invariant len(goTab) == len(lalr.G.VnSet) - 1 && len(gtdef) == len(goTab)
+//@ loop 2: invariant forall g int :: 0 <= g && g < len(goTab) ==> len(goTab[g]) == len(tab)
+//@ loop 2: invariant forall g, s int :: 0 <= g && g < idx2 && 0 <= s && s < len(tab) ==>
+//@     (goTab[g][s] == 0 && tab[s][len(lalr.G.VtSet)+1+g] == gtdef[g]) || (goTab[g][s] == tab[s][len(lalr.G.VtSet)+1+g] && tab[s][len(lalr.G.VtSet)+1+g] != gtdef[g])
+//@ loop 2: invariant forall g, s int :: idx2 <= g && g < len(goTab) && 0 <= s && s < len(tab) ==> goTab[g][s] == tab[s][len(lalr.G.VtSet)+1+g]
+//@ loop 3: invariant len(goTab) == len(lalr.G.VnSet) - 1 && len(gtdef) == len(goTab) && gtdef == before(gtdef)
+//@ loop 3: invariant forall g int :: 0 <= g && g < len(goTab) ==> len(goTab[g]) == len(tab)
+//@ loop 3: invariant forall g, s int :: 0 <= g && g < len(goTab) && g != i && 0 <= s && s < len(tab) ==> goTab[g][s] == before(goTab[g][s])
+//@ loop 3: invariant forall s int :: 0 <= s && s < idx3 ==>
+//@     (goTab[i][s] == 0 && tab[s][len(lalr.G.VtSet)+1+i] == gtdef[i]) || (goTab[i][s] == tab[s][len(lalr.G.VtSet)+1+i] && tab[s][len(lalr.G.VtSet)+1+i] != gtdef[i])
+//@ loop 3: invariant forall s int :: idx3 <= s && s < len(tab) ==> goTab[i][s] == tab[s][len(lalr.G.VtSet)+1+i]
+// append the goto columns to the action rows
+//@ loop 4: invariant len(actTab) == len(tab)
+//@ loop 4: invariant forall s int :: 0 <= s && s < len(tab) ==> len(actTab[s]) == len(lalr.G.VtSet) + 1 + idx4
+//@ loop 4: invariant forall s, a int :: 0 <= s && s < len(tab) && 0 <= a && a <= len(lalr.G.VtSet) ==> actTab[s][a] == before(actTab[s][a])
+//@ loop 4: invariant forall s, g int :: 0 <= s && s < len(tab) && 0 <= g && g < idx4 ==> actTab[s][len(lalr.G.VtSet)+1+g] == goTab[g][s]
+//@ loop 4: after forall s, a int :: 0 <= s && s < len(tab) && len(lalr.G.VtSet) < a && a < len(tab[0]) ==>
+//@     (actTab[s][a] == 0 && tab[s][a] == gtdef[a-len(lalr.G.VtSet)-1]) || (actTab[s][a] == tab[s][a] && tab[s][a] != gtdef[a-len(lalr.G.VtSet)-1])
+//@ loop 4: after forall s int :: 0 <= s && s < len(tab) ==> len(actTab[s]) == len(tab[0])
+//@ loop 5: invariant len(actTab) == len(tab)
+//@ loop 5: invariant forall s int :: 0 <= s && s < idx5 ==> len(actTab[s]) == len(lalr.G.VtSet) + 1 + idx4 + 1
+//@ loop 5: invariant forall s int :: idx5 <= s && s < len(tab) ==> len(actTab[s]) == len(lalr.G.VtSet) + 1 + idx4
+//@ loop 5: invariant forall s, a int :: 0 <= s && s < len(tab) && 0 <= a && a < len(lalr.G.VtSet) + 1 + idx4 ==> actTab[s][a] == before(actTab[s][a])
+//@ loop 5: invariant forall s int :: 0 <= s && s < idx5 ==> actTab[s][len(lalr.G.VtSet)+1+idx4] == goTab[idx4][s]
